@@ -391,10 +391,10 @@ def explore16(cfg: dict) -> dict:
 def configs(tier: str):
     out = []
     for fn in ('lag', 'lead', 'shift', 'diff', 'dlog'):
-        for n in range(0, (5 if tier == 'quick' else 7)):
+        for n in range(0, (6 if tier == 'quick' else 11)):
             out.append(cfg16(part='helper', fn=fn, n=n))
     for span in ('list_sym', 'range', 'list_str'):
-        for n in (1, 2, 3, 4) if tier == 'quick' else (1, 2, 3, 4, 5):
+        for n in (1, 2, 3, 4) if tier == 'quick' else (1, 2, 3, 4, 5, 6, 7):
             out.append(cfg16(part='eval', span=span, n=n))
     return out
 
@@ -416,8 +416,8 @@ def main() -> int:
         rep, configs(tier), TWINS,
         functions=['fsic.functions.shift', 'lag', 'lead', 'diff', 'dlog', 'fsic.core.containers.VectorContainer.eval',
                    'VectorContainer._resolve_expression_indexes'],
-        bounds={'helpers': f"vector length 0..{4 if tier == 'quick' else 6}; shifts p, d: ALL integers (d >= 0 for diff/dlog); fill: any Float64",
-                'eval': f"span length 1..{4 if tier == 'quick' else 5}; span labels symbolic integers (list span) / range / str; 15 expression shapes"},
+        bounds={'helpers': f"vector length 0..{5 if tier == 'quick' else 10}; shifts p, d: ALL integers (d >= 0 for diff/dlog); fill: any Float64",
+                'eval': f"span length 1..{4 if tier == 'quick' else 7}; span labels symbolic integers (list span) / range / str; 15 expression shapes"},
         outside=['pandas spans', 'diff/dlog with d < 0 (the statement defines d >= 0)', 'dlog on non-positive data (log is uninterpreted)',
                  'expressions outside the catalogue', 'globals= / builtins= / warnings_ arguments of eval'],
         key_fn=finding_key, explore=explore16,
